@@ -153,7 +153,19 @@ func (e *Env) LogSHA() string {
 		io.WriteString(h, l)
 		io.WriteString(h, "\n")
 	}
-	// site hit counts are part of the log
+	// (hook-site hit counts are not part of the canonical log: in multi-node
+	// worlds two events of the same simulated instant - an entry arriving and a
+	// flush timer firing - may be taken in either order by the Go scheduler,
+	// which changes how many rows a flush writes but nothing a client can see;
+	// they go into the separate trace hash used for the distinctness measure)
+	return hex.EncodeToString(h.Sum(nil))
+}
+
+// TraceSHA hashes the hook-site hit counts.
+func (e *Env) TraceSHA() string {
+	e.mu.Lock()
+	defer e.mu.Unlock()
+	h := sha256.New()
 	keys := make([]string, 0, len(e.Counts))
 	for k := range e.Counts {
 		if strings.HasPrefix(k, "site.") {
